@@ -272,6 +272,17 @@ func runC08(t *testing.T, tier string) int {
 			return // mutations of the longest sentences: every 5th in the quick tier
 		}
 		for p := 0; p < len(s); p++ {
+			// the grammar's words are case-sensitive: every other spelling of a keyword
+			switch s[p] {
+			case "attributes", "hasPrefix", "AND", "OR", "NOT":
+				for _, alt := range []string{strings.ToLower(s[p]), strings.ToUpper(s[p]), strings.ToUpper(s[p][:1]) + strings.ToLower(s[p][1:])} {
+					if alt != s[p] {
+						cs := append([]string{}, s...)
+						cs[p] = alt
+						try(cs)
+					}
+				}
+			}
 			// deletion
 			try(append(append([]string{}, s[:p]...), s[p+1:]...))
 			// adjacent swap
